@@ -62,6 +62,8 @@ type Sched struct {
 	MaxSteps int
 	killing  bool
 	tick     int
+	// idleAdvances counts consecutive clock advances that enabled no thread (a periodic timer nobody listens to must not spin forever)
+	idleAdvances int
 
 	Panic     any    // first panic in any thread
 	PanicInfo string // thread and stack
@@ -149,7 +151,8 @@ func (s *Sched) loop() {
 			}
 		}
 		if len(en) == 0 {
-			if !s.advanceClock() {
+			s.idleAdvances++
+			if s.idleAdvances > 10000 || !s.advanceClock() {
 				// nothing can ever run again
 				var bl []string
 				for _, t := range s.threads {
@@ -164,6 +167,7 @@ func (s *Sched) loop() {
 			}
 			continue
 		}
+		s.idleAdvances = 0
 		s.steps++
 		if s.MaxSteps > 0 && s.steps > s.MaxSteps {
 			s.Livelock = true
